@@ -76,10 +76,30 @@ func runOverlayTest(file, test string, extraEnv []string) (string, bool, error) 
 
 func init() {
 	replayers = append(replayers, func(r *Run, res *ObResult) (string, bool, bool) {
-		for _, w := range loadWitnesses() {
-			if w.Obligation != res.Name {
+		var log strings.Builder
+		handled, anyFailed := false, false
+		ws := loadWitnesses()
+		exact := false
+		for _, w := range ws {
+			if w.Obligation == res.Name {
+				exact = true
+			}
+		}
+		unit, _, _ := strings.Cut(res.Name, "#")
+		done := map[string]bool{}
+		for _, w := range ws {
+			// exact match on the obligation; otherwise every witness search of the same function
+			if exact && w.Obligation != res.Name {
 				continue
 			}
+			if !exact && !strings.HasPrefix(w.Obligation, unit+"#") {
+				continue
+			}
+			if done[w.File+"/"+w.Test] {
+				continue
+			}
+			done[w.File+"/"+w.Test] = true
+			handled = true
 			var env []string
 			if res.bad != nil && res.bad.Model != "" {
 				mf := filepath.Join(verifDir, "replays", fmt.Sprintf("%s-%s.model", r.Prop, mangle(res.Name)))
@@ -88,12 +108,15 @@ func init() {
 			}
 			out, failed, err := runOverlayTest(w.File, w.Test, env)
 			if err != nil {
-				return fmt.Sprintf("witness search %s/%s: %v\n%s", w.File, w.Test, err, out), false, true
+				fmt.Fprintf(&log, "witness search %s/%s: %v\n%s\n", w.File, w.Test, err, out)
+				continue
 			}
-			hdr := fmt.Sprintf("witness search %s (%s), injected with go test -overlay into /repo/jen:\n", w.Test, w.File)
-			return hdr + out, failed, true
+			fmt.Fprintf(&log, "witness search %s (%s), injected with go test -overlay into /repo/jen:\n%s\n", w.Test, w.File, out)
+			if failed {
+				anyFailed = true
+			}
 		}
-		return "", false, false
+		return log.String(), anyFailed, handled
 	})
 }
 
